@@ -262,8 +262,11 @@ DoSnapshot(s) ==
         (* a tombstone on a path that is a directory of the tree removes the whole subtree, *)
         (* unless some override below it makes the TreeBuilder rewrite that directory       *)
         dropped == {q \in Paths : \E p \in w.del : q \in Under(p) /\ \A r \in Under(p) : r \notin ovr}
+        (* an emitted entry turns every tree FILE above it into a directory - also one that  *)
+        (* lies outside the sparse patterns and was never looked at (F9)                      *)
+        evicted == {p \in Paths : s.tree[p].k # "absent" /\ \E q \in emit : p \in Ancestors(q)}
         s2 == [s EXCEPT
-          !.tree = [p \in Paths |-> IF p \in w.del \/ p \in dropped THEN Absent
+          !.tree = [p \in Paths |-> IF p \in w.del \/ p \in dropped \/ p \in evicted THEN Absent
                                     ELSE IF p \in emit THEN SnapValue(s, p) ELSE s.tree[p]],
           !.fs = [p \in Paths |-> IF p \in w.del THEN NoFS
                                   ELSE IF p \in w.upd THEN FS(Seen(s, p).k, Seen(s, p).x) ELSE s.fs[p]]]
@@ -528,6 +531,13 @@ TrackedDirShape(s) ==
 StaleIgnoredShape(s) ==
   \E p \in Paths : /\ Tracked(s, p) /\ s.tree[p].k = "absent" /\ FileLike(s.disk[p])
                     /\ SparseMatch(s.sparse, p) /\ IgnoredAlong(s.disk, p)
+(* F9: the tree has a file at a path OUTSIDE the sparse patterns and a pattern  *)
+(*     lies below it (tree file d, pattern d/x): a new file d/x on disk is      *)
+(*     auto-tracked and silently evicts d from the tree - a path outside the    *)
+(*     patterns is recorded as deleted.                                         *)
+SparseClashShape(s) ==
+  \E p \in Paths : /\ ~SparseMatch(s.sparse, p) /\ s.tree[p].k # "absent"
+                    /\ \E q \in Under(p) : SparseMatch(s.sparse, q) /\ FileLike(s.disk[q])
 (* F8: visit_tracked_files stats tracked paths of an ignored directory by their *)
 (*     full name; if a directory on the way was replaced by a symlink to a     *)
 (*     directory outside the workspace that has the same sub-path, the         *)
